@@ -3,6 +3,7 @@ package checks
 import (
 	"encoding/base64"
 	"fmt"
+	"regexp"
 	"runtime/debug"
 	"strings"
 	"testing"
@@ -304,6 +305,13 @@ func mutate(rt *rapid.T, s string) (string, int) {
 }
 
 func TestC06Rapid(t *testing.T) {
+	// A client is entitled to install a small pattern cache. Compile consults the cache for
+	// every constant matches() pattern, so with two entries the generated inputs drive it
+	// through miss, insert and reset all the time - whatever goes wrong there (a lock kept,
+	// a failed load remembered) shows as a Compile that hangs or panics.
+	savedCache := xpath.RegexpCache
+	xpath.RegexpCache = xpath.NewLoadingCache(func(key interface{}) (interface{}, error) { return regexp.Compile(key.(string)) }, 2)
+	defer func() { xpath.RegexpCache = savedCache }()
 	journal := harness.OpenJournal()
 	doc := xdoc.MustParse("<a x='1'><b/>{t}</a>")
 	runRapid(t, uC06Rapid, func(rt *rapid.T) {
